@@ -9,19 +9,84 @@ from pyvc.nparr import sym_array, SArr
 IO = 'cmaqfiles/_ioapi.py'
 
 
-class NoEffectAssumed(Contract):
-    """ASSUMED summary used while proving updatemeta: the callee does not change the row/column/layer counts, the
-    dimensions other than VAR, or the unlimited flags (its own clauses are checked by the bounded harness)"""
+def attr_frame(a, a0, allowed):
+    """names of the file attributes (listing included) that are not the very objects they were at entry, besides `allowed`"""
+    skip = set(allowed) | {'variables', 'dimensions', '_ncattrs'}
+    changed = sorted(k for k in set(a) | set(a0) if k not in skip and a.get(k, None) is not a0.get(k, None))
+    listed = lambda d: set(k for k in d.get('_ncattrs', ()) if k not in skip)
+    return changed, sorted(listed(a) ^ listed(a0))
+
+
+def dims_frame(d, d0, flags0, lens0, allowed=()):
+    """clauses: the dimensions other than `allowed` are the same objects with the same length and unlimited flag"""
+    keys = [k for k in d0 if k not in allowed]
+    same = all(k in d and d[k] is d0[k] for k in keys) and not [k for k in d if k not in d0 and k not in allowed]
+    return [('frame: dimensions besides %s are the same objects, none added or removed' % (sorted(allowed) or 'none'), same),
+            ('frame: their lengths and unlimited flags are unchanged',
+             And(*[And(eq(d[k].attrs['_len'], lens0[k]), eq(d[k].attrs['_unlimited'], flags0[k])) for k in keys if k in d]) if same else False)]
+
+
+def dims_snapshot(dims):
+    return dict(dims), {k: v.attrs['_unlimited'] for k, v in dims.items()}, {k: v.attrs['_len'] for k, v in dims.items()}
+
+
+def frame_replay(call, allowed_attrs, allowed_dims=(), allowed_vars=(), prepare=None):
+    """on the real code: an IOAPI file, every attribute / dimension / variable outside the allowed sets must be untouched by `call`"""
+    import numpy as np
+    from rtc import harness as H, ioapi as IOH
+    P = H.real()
+    f = IOH.make_ioapi(P, nt=3, nz=2, ny=4, nx=5)
+    f.dimensions['LAY'].setunlimited(False)
+    # start from a coherent file whatever the constructor path did (on a tree under test it runs the very callee replayed here)
+    f.NLAYS, f.NROWS, f.NCOLS = (len(f.dimensions[k]) for k in ('LAY', 'ROW', 'COL'))
+    f.dimensions['TSTEP'].setunlimited(True)
+    if prepare is not None:
+        prepare(f)
+    snap = lambda: ({k: repr(np.asarray(getattr(f, k)).tolist()) for k in f.ncattrs() if k not in allowed_attrs},
+                    {k: (len(d), bool(d.isunlimited())) for k, d in f.dimensions.items() if k not in allowed_dims},
+                    sorted(k for k in f.variables if k not in allowed_vars))
+    before = snap()
+    try:
+        call(f)
+    except Exception as e:
+        return False, dict(raised=type(e).__name__, message=str(e)[:160])
+    after = snap()
+    bad = []
+    for what, b, a in zip(('attributes', 'dimensions (length, unlimited)', 'variables'), before, after):
+        if b != a:
+            diff = sorted(set(b) ^ set(a)) + sorted(k for k in b if k in a and b[k] != a[k]) if isinstance(b, dict) else sorted(set(b) ^ set(a))
+            bad.append('%s changed outside the frame: %r' % (what, diff[:6]))
+    return not bad, dict(failed=bad)
+
+
+class FrameProved(Contract):
+    """summary used while proving updatemeta: the callee may write the attributes / dimensions listed in WRITES (they are
+    havocked here) and nothing else of the file -- that frame is a post-condition of the callee's own contract in this file
+    (getVarlist[...], updatetflag[...], _updatetime); the callee's functional clauses are not needed by updatemeta"""
     prop = 'C10'
+    WRITES = {'getVarlist': (('VAR-LIST', 'NVARS'), ('VAR',)),
+              '_updatetime': (('CDATE', 'CTIME', 'WDATE', 'WTIME'), ()),
+              'updatetflag': (('SDATE', 'STIME', 'TSTEP', 'NVARS', 'VAR-LIST', 'WDATE', 'WTIME'), ())}
 
     def __init__(self, qual):
+        self.qual = qual
         self.target = IO + '::ioapi_base.' + qual
-        self.name = qual + '[assumed frame]'
+        self.name = qual + '[frame]'
 
     def apply(self, I, func, args, kwargs):
-        I.ctx.ghost.setdefault('called', []).append(self.target.split('.')[-1])
+        me = func.bound if func.bound is not None else args[0]
+        I.ctx.ghost.setdefault('called', []).append(self.qual)
         I.ctx.trust_contract = getattr(I.ctx, 'trust_contract', set())
-        I.ctx.trust_contract.add(self.target + ' (assumed frame)')
+        I.ctx.trust_contract.add(self.target + ' (frame proved by the contracts on %s)' % self.qual)
+        attrs, dims = self.WRITES[self.qual]
+        for k in attrs:
+            me.attrs[k] = Opaque('%s as left by %s' % (k, self.qual))
+            if k not in me.attrs.get('_ncattrs', ()):
+                me.attrs['_ncattrs'] = tuple(me.attrs.get('_ncattrs', ())) + (k,)
+        for d in dims:
+            n = I.ctx.fresh('len_%s_after_%s' % (d, self.qual))
+            I.ctx.assume(ge(n, 1))
+            me.attrs['dimensions'][d] = dim_obj(I, d, n)
         return None
 
 
@@ -30,7 +95,7 @@ class UpdateMeta(Contract):
     DATE-TIME dimension exists with length 2, and the variable list / time flags are refreshed (getVarlist, updatetflag called)"""
     prop = 'C10'
     target = IO + '::ioapi_base.updatemeta'
-    uses = [NoEffectAssumed('getVarlist'), NoEffectAssumed('_updatetime'), NoEffectAssumed('updatetflag')]
+    uses = [FrameProved('getVarlist'), FrameProved('_updatetime'), FrameProved('updatetflag')]
 
     def __init__(self, stale, has_dt):
         self.stale, self.has_dt = stale, has_dt
@@ -116,6 +181,57 @@ class UpdateMeta(Contract):
 CONTRACTS = [UpdateMeta(s, h) for s in (False, True) for h in (False, True)]
 
 
+class UpdateTime(Contract):
+    """_updatetime(write, create) on a file with ARBITRARY dimensions and stale stamps: only the creation / write stamps are
+    written (CDATE / CTIME when create, WDATE / WTIME when write), every other attribute, the dimensions and the variables are
+    the objects they were; it never raises (the clock is an opaque value)"""
+    prop = 'C10'
+    target = IO + '::ioapi_base._updatetime'
+
+    def __init__(self, write, create):
+        self.write, self.create = write, create
+        self.name = '_updatetime[write=%s,create=%s]' % (write, create)
+
+    def inputs(self, ctx, I):
+        ctx.modstate[(IO, '_ioapi_defaults')] = {}
+        n = {d: ctx.fresh('n_' + d) for d in ('TSTEP', 'LAY', 'ROW', 'COL')}
+        dims = {d: dim_obj(I, d, x, unlimited=ctx.fresh('unl_' + d, 'Bool')) for d, x in n.items()}
+        attrs = dict(NLAYS=ctx.fresh('NLAYS'), NROWS=ctx.fresh('NROWS'), NCOLS=ctx.fresh('NCOLS'), SDATE=ctx.fresh('SDATE'), WDATE=ctx.fresh('old_WDATE'))
+        f = pnc_file(I, dimensions=dims, attrs=attrs, relpath=IO, clsname='ioapi_base')
+        self.snap = (dict(f.attrs),) + dims_snapshot(f.attrs['dimensions'])
+        self.vars0 = dict(f.attrs['variables'])
+        return dict(self=f, write=self.write, create=self.create)
+
+    def ensures(self, inp, res, I):
+        a = inp['self'].attrs
+        a0, d0, fl0, ln0 = self.snap
+        allowed = (('WDATE', 'WTIME') if self.write else ()) + (('CDATE', 'CTIME') if self.create else ())
+        changed, relisted = attr_frame(a, a0, allowed)
+        return [('frame: no attribute written besides %s %s' % (' / '.join(allowed) or 'none', changed or ''), not changed),
+                ('frame: no other attribute listed or unlisted %s' % (relisted or ''), not relisted),
+                ('the stamps asked for are listed attributes', all(k in a and k in a['_ncattrs'] for k in allowed)),
+                ('frame: variables untouched', a['variables'] == self.vars0)] + dims_frame(a['dimensions'], d0, fl0, ln0)
+
+
+    def concretize(self, model, inp):
+        return dict(write=self.write, create=self.create)
+
+    concretize_without_model = lambda self, inp: dict(write=self.write, create=self.create)
+
+    def replay(self, c):
+        allowed = (('WDATE', 'WTIME') if c['write'] else ()) + (('CDATE', 'CTIME') if c['create'] else ())
+        def prepare(f):
+            # stamps and start date moved away from today's values (the constructor has stamped the file already)
+            for k in ('SDATE', 'CDATE', 'WDATE'):
+                setattr(f, k, 1999001)
+            for k in ('STIME', 'CTIME', 'WTIME'):
+                setattr(f, k, 1)
+        return frame_replay(lambda f: f._updatetime(write=c['write'], create=c['create']), allowed, prepare=prepare)
+
+
+CONTRACTS += [UpdateTime(True, False), UpdateTime(True, True), UpdateTime(False, False)]
+
+
 class GetVarlist(Contract):
     """getVarlist(update=True) on a file holding data variables O3, NO2 (TSTEP, LAY, ROW, COL), the time flags, a 2-d
     variable LAT (ROW, COL) -- dimension lengths, the stale NVARS value and the stale VAR length are ARBITRARY; the VAR-LIST
@@ -164,6 +280,7 @@ class GetVarlist(Contract):
             attrs['VAR-LIST'] = old
         f = pnc_file(I, dimensions=dims, variables=vs, attrs=attrs, relpath=IO, clsname='ioapi_base')
         self.n = n
+        self.snap = (dict(f.attrs),) + dims_snapshot(f.attrs['dimensions'])
         return dict(self=f)
 
     def requires(self, inp):
@@ -178,7 +295,43 @@ class GetVarlist(Contract):
                 ('NVARS = number of listed variables', eq(a.get('NVARS'), len(want))),
                 ('VAR dimension = max(NVARS, 1)', 'VAR' in d and eq(d['VAR'].attrs['_len'], max(len(want), 1))),
                 ('other-dimensions-kept', And(*[eq(d[k].attrs['_len'], x) for k, x in self.n.items()])),
-                ('variables-kept', list(a['variables'].keys()) == ['TFLAG', 'O3', 'LAT', 'NO2'])]
+                ('variables-kept', list(a['variables'].keys()) == ['TFLAG', 'O3', 'LAT', 'NO2'])] + self.frame(a)
+
+    def frame(self, a):
+        # what updatemeta relies on: nothing but VAR-LIST / NVARS and the VAR dimension is written
+        a0, d0, fl0, ln0 = self.snap
+        changed, relisted = attr_frame(a, a0, ('VAR-LIST', 'NVARS'))
+        return [('frame: no attribute written besides VAR-LIST and NVARS %s' % (changed or ''), not changed),
+                ('frame: no other attribute listed or unlisted %s' % (relisted or ''), not relisted)] + dims_frame(a['dimensions'], d0, fl0, ln0, allowed=('VAR',))
+
+
+    def concretize(self, model, inp):
+        return dict(pattern=self.pattern)
+
+    concretize_without_model = lambda self, inp: dict(pattern=self.pattern)
+
+    def replay(self, c):
+        # the frame and the listing on the real code (variables V0, V1; VAR-LIST absent / stale as in the pattern)
+        def prepare(f):
+            if c['pattern'] == 'absent':
+                delattr(f, 'VAR-LIST')
+            elif c['pattern'].startswith('stale'):
+                setattr(f, 'VAR-LIST', 'OLD'.ljust(16) + 'V0'.ljust(16) + 'V1'.ljust(16))
+            elif c['pattern'].startswith('free-form'):
+                setattr(f, 'VAR-LIST', 'V1 V0')
+            f.NVARS = 7
+        got = {}
+
+        def call(f):
+            got['names'] = list(f.getVarlist(update=True))
+            got['attr'] = getattr(f, 'VAR-LIST', None)
+            got['nvars'] = int(f.NVARS)
+        ok, d = frame_replay(call, ('VAR-LIST', 'NVARS'), allowed_dims=('VAR',), prepare=prepare)
+        if ok:
+            want = ['V1', 'V0'] if c['pattern'].startswith('free-form') else ['V0', 'V1']
+            if got.get('names') != want or got.get('attr') != ''.join(k.ljust(16) for k in want) or got.get('nvars') != 2:
+                return False, dict(pattern=c['pattern'], got=got, expected=want)
+        return ok, d
 
 
 CONTRACTS += [GetVarlist(p, h) for p in GetVarlist.PATTERNS for h in (True, False)]
@@ -273,6 +426,7 @@ class UpdateTflag(Contract):
             vs['TFLAG'] = a
         f = pnc_file(I, dimensions=dims, variables=vs, attrs=dict(SDATE=self.sdate, STIME=self.stime, TSTEP=self.tstep, NVARS=self.nv),
                      relpath=IO, clsname='ioapi_base')
+        self.snap = (dict(f.attrs),) + dims_snapshot(f.attrs['dimensions'])
         return dict(self=f, overwrite=True)
 
     def requires(self, inp):
@@ -307,7 +461,16 @@ class UpdateTflag(Contract):
                 ('flag t denotes start + t * step, in every variable column', Implies(rng, eq(instant_yyyyjjj(d, tm), add(start, mul(t, step_s))))),
                 ('SDATE/STIME are the first flag', And(eq(a['SDATE'], tf.get(0, 0, 0)), eq(a['STIME'], tf.get(0, 0, 1)))),
                 ('start instant unchanged', eq(instant_yyyyjjj(a['SDATE'], a['STIME']), start)),
-                ('TSTEP unchanged', eq(a['TSTEP'], self.tstep))]
+                ('TSTEP unchanged', eq(a['TSTEP'], self.tstep))] + self.frame(a)
+
+    def frame(self, a):
+        # what updatemeta relies on: only the start date / time (and step) attributes, the variable list (TFLAG is created through
+        # createVariable), the write stamp and the TFLAG variable are written -- not the grid counts, not the dimensions
+        a0, d0, fl0, ln0 = self.snap
+        changed, relisted = attr_frame(a, a0, ('SDATE', 'STIME', 'TSTEP', 'NVARS', 'VAR-LIST', 'WDATE', 'WTIME'))
+        return [('frame: no attribute written besides SDATE / STIME / TSTEP, NVARS / VAR-LIST, WDATE / WTIME %s' % (changed or ''), not changed),
+                ('frame: no other attribute listed or unlisted %s' % (relisted or ''), not relisted),
+                ('frame: no variable besides TFLAG added or removed', sorted(k for k in a['variables'] if k != 'TFLAG') == [])] + dims_frame(a['dimensions'], d0, fl0, ln0)
 
 
     # -- replay on the real function (independent julian arithmetic as the reference) ---------------------------------
@@ -346,6 +509,10 @@ class UpdateTflag(Contract):
             if not ok:
                 return r
             out = out or r
+        fr = frame_replay(lambda f: f.updatetflag(overwrite=True), ('SDATE', 'STIME', 'TSTEP', 'NVARS', 'VAR-LIST', 'WDATE', 'WTIME'), allowed_vars=('TFLAG',),
+                          prepare=None if self.had else (lambda f: f.variables.pop('TFLAG')))
+        if not fr[0]:
+            return fr
         return out
 
 
@@ -638,7 +805,7 @@ def bounded_replay(p):
 
 META = dict(
     level='other',
-    technique='updatemeta, getVarlist, updatetflag and the IOAPI wrappers subsetVariables / renameVariable / copy (every callee in line) proved by pyvc (calendar arithmetic with a trusted strftime model, arithmetic hints validated by the solver); '
+    technique='updatemeta (callee frames proved, not assumed), _updatetime, getVarlist, updatetflag and the IOAPI wrappers subsetVariables / renameVariable / copy (every callee in line) proved by pyvc (calendar arithmetic with a trusted strftime model, arithmetic hints validated by the solver); '
               'the full coherence invariant by bounded run-time contract over operation sequences',
     text='Proved: (1) updatemeta, any dimension lengths and stale attribute values: NLAYS/NROWS/NCOLS equal the dimension lengths, TSTEP unlimited, DATE-TIME = 2, variable list '
          'refreshed before the time flags; (2) getVarlist for five VAR-LIST patterns (absent / stale / wrong dimensions / free-form / up to date) on files of arbitrary size: VAR-LIST '
@@ -646,7 +813,7 @@ META = dict(
          'and any numbers of steps and variables: every regenerated flag is a valid (YYYYJJJ, HHMMSS) pair denoting start + t*step in every variable column, SDATE/STIME are the first '
          'flag and denote the same instant as before; (4) the IOAPI wrappers subsetVariables (include / exclude), renameVariable and copy on a coherent file of arbitrary size: VAR-LIST names exactly the '
          'data variables of the result, NVARS / VAR / the variable axis of TFLAG have that number, NLAYS/NROWS/NCOLS = dimension lengths, TSTEP unlimited, data element-wise the source, source unchanged. Bounded: the complete ioapi_wf invariant after every operation sequence of the stated bound.',
-    note='inside updatemeta the three callees are assumed frames (each is proved on its own here); the variable names of the getVarlist instances are concrete; '
+    note='inside updatemeta the three callees are summarised by their frames (what they may write is havocked), and each frame is a proved post-condition of the contract on that callee here; the variable names of the getVarlist instances are concrete; '
          'datetime.strftime is a trusted model (inverse of the day-number map). Operation wrappers (slice/apply/eval/stack...) are bounded only.',
     assumptions=["datetime.strftime('%Y%j'/'%H%M%S') as modelled in pyvc/dt.py (trusted); datetime.now() arbitrary"],
     explanation='mixed: proof obligations for updatemeta / getVarlist / updatetflag + bounded exploration of operation sequences')
